@@ -425,6 +425,24 @@ def rule_stable(ctx: Ctx) -> None:
     ids = [c for f_ in Scope(ctx, fn, wide=True).funcs for c in ast.walk(f_.node) if isinstance(c, ast.Call) and dotted(c.func) == "id"]
     ctx.add("7-stable", fn, ids[0] if ids else fn.node, not ids, "no object identity (id()) is consulted while building a key" if not ids else
             f"`{norm(ids[0])}` is consulted while building the key: a key remembered per object identity is returned unchanged after the object was modified in place (equal keys for unequal values)", key="no-identity-memo")
+    # "the same key in every process": nothing that differs from one interpreter to the next takes part - neither in the functions
+    # that build a key nor in the module-level constants they use (a marker made of uuid4() keys a DiskCache directory per process)
+    import re as _re
+
+    NONDET = _re.compile(r"^(uuid\.uuid[14]|uuid[14]|random\.|secrets\.|os\.getpid|getpid|os\.urandom|urandom|time\.|datetime\.|id|hash|object|threading\.get_ident|get_ident)$|^(random|secrets)\.")
+    funcs = Scope(ctx, fn, wide=True).funcs
+    used = {x.id for f_ in funcs for x in ast.walk(f_.node) if isinstance(x, ast.Name)}
+    consts = {nm: v for f_ in funcs for nm, v in f_.module.assigns.items() if nm in used}
+    for _ in range(2):  # constants defined from other constants
+        for f_ in funcs:
+            for nm, v in f_.module.assigns.items():
+                if nm not in consts and any(isinstance(x, ast.Name) and x.id == nm for c_ in consts.values() for x in ast.walk(c_)):
+                    consts[nm] = v
+    nd = [(nm, c) for nm, v in consts.items() for c in ast.walk(v) if isinstance(c, ast.Call) and NONDET.search(dotted(c.func) or "")]
+    nd += [(f_.name, c) for f_ in funcs for c in ast.walk(f_.node) if isinstance(c, ast.Call) and NONDET.search(dotted(c.func) or "") and dotted(c.func) not in ("id", "hash")]
+    ctx.add("7-stable", fn, nd[0][1] if nd else fn.node, not nd, f"nothing process-dependent (uuid / random / pid / time) in the key builders or the {len(consts)} module constant(s) they use" if not nd else
+            f"`{nd[0][0]}` takes part in every converted key and is computed from `{norm(nd[0][1])[:50]}`: it differs from one interpreter to the next, so the same value gets a different key in every process "
+            "(a DiskCache directory or a shared cache never hits across processes)", key="process-independent")
     for hn in ("_pickle_key", "_cloudpickle_key"):
         h = ctx.prog.func(f"{MOD}.{hn}")
         src = Scope(ctx, h).text()
